@@ -11,6 +11,14 @@ BASELINE = ("cd /repo && /venv/bin/python -m pytest -ra -q -p no:cacheprovider -
 
 # pid -> (category, text, design_ref, level_note, technique)
 CLAIMED = {
+ "C09": ("model_checking",
+         "spec/Concurrency.tla: sessions whose (member) requests each take effect in one atomic step on the shared tag model; TLC explores "
+         "every interleaving of five scenarios (TagsWellFormed, PrivateKept, NoTornRead, termination); on the real code one thread per "
+         "session runs the per-frame pipeline while shared parser locks and every tag-storage access are scheduling points and a "
+         "controller forces TLC-emitted schedules (deterministic, reproducible); each execution's history is checked by TLC "
+         "(ConcurrencyTrace) for linearizability against the tag model, plus reply routing, deadlock and exception freedom.",
+         "5/C09", "preemption only at the instrumented points (parser locks, tag storage accesses); free-running preemption at other points is not sampled yet",
+         "TLA+ atomic-effect model + TLC interleavings; TLC-emitted schedules forced on real threads; histories checked for linearizability by TLC"),
  "C08": ("fault_enumeration",
          "spec/Hostile.tla lays valid frames (write, read, bundle, register, forward open) out as named parts -- every length, count, offset, "
          "size and type field of every nesting level -- and enumerates part x operator mutation plans (zero, +-1, max, drop, dup, "
